@@ -93,7 +93,8 @@ class P(Prop):
     def observe(self, case, es, sysm, res):
         props = (list(sysm.mechanical_system.mechanical_loads) if case["mech"] else list(es.propulsion_drives))
         snap = (sysrun.snap(res.mechanical_system), sysrun.snap(res.electric_system)) if case["mech"] else (sysrun.snap(res),)
-        return {"prop": [[float(x) for x in np.atleast_1d(p.power_output)] for p in props],
+        return {"gensets": [[float(x) for x in np.atleast_1d(g.power_output)] for g in es.power_sources if type(g).__name__ == "Genset"],
+                "prop": [[float(x) for x in np.atleast_1d(p.power_output)] for p in props],
                 "aux": [[float(x) for x in np.atleast_1d(o.power_input)] for o in es.other_load],
                 "dt": [float(x) for x in np.atleast_1d(es.time_interval_s)], "snap": list(snap)}
 
@@ -187,6 +188,15 @@ class P(Prop):
                     return f"time-series route: propulsor gets {p} but sample {k} / {case['nprop']} propulsors is {want} over {m - 1} intervals"
             if abs(ref["dt"][k] - float(case["ts"][k + 1] - case["ts"][k])) > 1e-9:
                 return f"interval {k} is {ref['dt'][k]} s, the stamps give {float(case['ts'][k + 1] - case['ts'][k])} s"
+        # a sample is held until the next one: a genset's running hours are the intervals in which it delivers power
+        from props.C19 import scalar_fields
+        el = ref["snap"][-1]         # the electric system's result
+        if "running_hours_genset_total_hr" in scalar_fields() and ref.get("gensets") is not None:
+            got = el["scalars"][scalar_fields().index("running_hours_genset_total_hr")]
+            want = sum(d for g in ref["gensets"] for d, p in zip(ref["dt"], g) if p != 0) / 3600
+            if abs(got - want) > 1e-9 * max(1.0, want):
+                return (f"genset running hours {got} h, but the intervals {ref['dt']} in which the gensets deliver power "
+                        f"({[[p != 0 for p in g] for g in ref['gensets']]}) sum to {want} h")
         for route in ("gymir", "proto", "stat"):
             if route not in obs:
                 continue
